@@ -17,7 +17,7 @@ STUBS = ["fstat/mmap/munmap/getenv/posix_madvise: ghost file (exactly file-sized
          "MAP_FAILED: environment sentinel modelled as the address of a distinct object"]
 
 
-def rq(name, entry, spec, ops=None, kind=0, ql=1, ql2=1, t0l=1, t1l=1, verify=0, timeout=1500, mem_gb=14, extra=None, sample=None, witness=True):
+def rq(name, entry, spec, ops=None, kind=0, ql=1, ql2=1, t0l=1, t1l=1, verify=0, timeout=1500, mem_gb=14, extra=None, sample=None, witness=True, us_extra=None):
     kls, vls, blk = spec["kls"], spec["vls"], spec["blk"]
     n = len(kls)
     rsts = list(spec.get("rsts") or [1] * n)
@@ -61,6 +61,10 @@ def rq(name, entry, spec, ops=None, kind=0, ql=1, ql2=1, t0l=1, t1l=1, verify=0,
         "ubuf_reserve.0": 1, "ubuf_reserve$link1.0": 1, "ubuf_reserve$link2.0": 1,
         "r_layout.0": spec.get("pfx", 0) + 2,      # the foreign-prefix loop of the reference encoder
     }
+    if maxlen > 60:     # key buffers (initial capacity 64) grow
+        us.update({"ubuf_reserve.0": 4, "ubuf_reserve$link1.0": 4, "ubuf_reserve$link2.0": 4})
+    if us_extra:
+        us.update(us_extra)
     smp = {"entries": n, "key_lens": kls, "val_lens": vls, "blocks": blk, "restarts": rsts, "shared": spec.get("shs"),
            "sep_lens": spec.get("sepl"), "version": spec.get("ver", 2), "prefix": spec.get("pfx", 0),
            "kind": ["iter", "get", "get_prefix", "get_range"][kind], "ops": ops, "verify_checksums": verify,
@@ -69,6 +73,6 @@ def rq(name, entry, spec, ops=None, kind=0, ql=1, ql2=1, t0l=1, t1l=1, verify=0,
                       else "all key/value/separator/query/target bytes symbolic"}
     if sample:
         smp.update(sample)
-    return Query(name, harness="c_reader.c", entry=entry, defines=d, units=UNITS, unwind=max(12, n + 4),
-                 unwindset=us, flags=["--max-field-sensitivity-array-size", "1024"], object_bits=12,
+    return Query(name, harness="c_reader.c", entry=entry, defines=d, units=UNITS, unwind=max(12, n + 4, (maxlen + 2) if maxlen > 8 else 0, (max(vls) + 2) if max(list(vls) + [0]) > 8 else 0),
+                 unwindset=us, flags=["--max-field-sensitivity-array-size", str(max(1024, d["FILE_LEN"] + 8))], object_bits=12,
                  timeout=timeout, mem_gb=mem_gb, sample=smp, leak_check=True, witness=witness)
